@@ -372,8 +372,13 @@ WITNESSES += [
 #                  stretched by the other operand to ANY extent, so no upper bound on the extents may be reported then; without a 1 the
 #                  largest constant extent is a sound bound
 _BS = "template <class A> using bs_t = meta::get_maybe_type_t<decltype(nm::index::broadcast_shape(std::declval<A>(), std::declval<nm::utl::static_vector<size_t,3>>()))>;\ntemplate <size_t... E> using cs_t = nmtools_tuple<meta::ct<E>...>;\n"
-def _bsw(id, shape, bounded):
+_BS_SW = "template <class A> using bs_t = meta::get_maybe_type_t<decltype(nm::index::broadcast_shape(std::declval<nm::utl::static_vector<size_t,3>>(), std::declval<A>()))>;\ntemplate <size_t... E> using cs_t = nmtools_tuple<meta::ct<E>...>;\n"
+def _bsw(id, shape, bounded, swapped=False):
     ext = ",".join(str(x) for x in shape)
+    if swapped:
+        w = _bsw(id, shape, bounded)
+        w["code"] = w["code"].replace(_BS, _BS_SW); w["why"] = w["why"].replace("broadcast_shape(constant", "broadcast_shape(bounded-dimension shape FIRST, constant")
+        return w
     if bounded:
         code = _BS + "void f(){ using R = bs_t<cs_t<%s>>; if constexpr (meta::is_clipped_index_array_v<R>) { constexpr auto b = meta::to_value_v<R>; static_assert(nm::at(b,0) >= %d && nm::at(b,1) >= %d && nm::at(b,2) >= %d, \"a reported bound covers every extent the result can have\"); } }" % (ext, shape[0], shape[1], shape[2])
         why = "broadcast_shape(constant (%s), bounded-dimension shape): a reported per-extent bound is at least the constant extent" % ext
@@ -385,4 +390,8 @@ WITNESSES += [
  _bsw("c11_bshape_const_132_bounded", (1,3,2), False), _bsw("c11_bshape_const_312_bounded", (3,1,2), False), _bsw("c11_bshape_const_513_bounded", (5,1,3), False),
  _bsw("c11_bshape_const_321_bounded", (3,2,1), False), _bsw("c11_bshape_const_123_bounded", (1,2,3), False), _bsw("c11_bshape_const_231_bounded", (2,3,1), False),
  _bsw("c11_bshape_const_232_bounded", (2,3,2), True), _bsw("c11_bshape_const_423_bounded", (4,2,3), True),
+ # the same facts with the operands in the other order (a separate branch of the resolver)
+ _bsw("c11_bshape_bounded_const_132", (1,3,2), False, True), _bsw("c11_bshape_bounded_const_312", (3,1,2), False, True), _bsw("c11_bshape_bounded_const_513", (5,1,3), False, True),
+ _bsw("c11_bshape_bounded_const_321", (3,2,1), False, True), _bsw("c11_bshape_bounded_const_123", (1,2,3), False, True), _bsw("c11_bshape_bounded_const_231", (2,3,1), False, True),
+ _bsw("c11_bshape_bounded_const_232", (2,3,2), True, True), _bsw("c11_bshape_bounded_const_423", (4,2,3), True, True),
 ]
